@@ -895,6 +895,21 @@ func (p *Peer) onRequest(r Req) {
 			p.violate("C02", "request.bounds", "request %v outside piece of %d bytes or longer than 16 KiB", r, ps)
 			return
 		}
+		// C02: blocks cover the non-padding bytes of a piece only, without overlapping
+		if mask := t.PadMask(int(r.Index)); mask != nil {
+			for i := r.Begin; i < r.Begin+r.Length && int(i) < len(mask); i++ {
+				if mask[i] {
+					p.violate("C02", "request.covers_padding", "request %v includes byte %d of the piece, which belongs to a padding file", r, i)
+					break
+				}
+			}
+		}
+		for _, q := range p.reqIn {
+			if q.Index == r.Index && q != r && q.Begin < r.Begin+r.Length && r.Begin < q.Begin+q.Length {
+				p.violate("C02", "request.overlap", "request %v overlaps the outstanding request %v", r, q)
+				break
+			}
+		}
 		if !p.fast() && p.staleRequestLocked() {
 			// Sent before the SUT read our latest choke: both sides drop it (BEP 3), whatever our
 			// choke state is by now. It is neither outstanding nor served.
